@@ -126,6 +126,25 @@ theorem collect_twice_defined {g g' : Gc} {st : List Slot} {gp : Nat} (inv : Inv
   | some g'' =>
     exact ⟨g'', rfl, (C09.collect_exact inv' wt' h').1, collect_twice_same_objects inv wt h wt' h'⟩
 
+/-- **whichever way the trigger decides** (`gc_run`: collect only above the 80 % mark, so it
+depends on the heap size): every reachable cell keeps its object, and the reachable set is the
+same — the three schedules "never", "by the rule", "always" agree on what the program can see -/
+theorem run_any_schedule_same_view {g gr gc : Gc} {st : List Slot} {gp : Nat} (inv : Inv g)
+    (wt : g.wellTyped (.collect st gp) = true)
+    (hr : g.run st gp = some gr) (hc : g.collect st gp = some gc) (x : Nat) :
+    (Live gr.mem (allRoots st gp) x ↔ Live g.mem (allRoots st gp) x) ∧
+    (Live gc.mem (allRoots st gp) x ↔ Live g.mem (allRoots st gp) x) ∧
+    (Live g.mem (allRoots st gp) x →
+      objAt gr.mem x = objAt g.mem x ∧ objAt gc.mem x = objAt g.mem x) := by
+  have hk := (C09.collect_exact inv wt hc).2.2.1
+  unfold Gc.run at hr
+  split at hr
+  · rw [hc] at hr; cases hr
+    exact ⟨collect_preserves_liveness inv wt hc x, collect_preserves_liveness inv wt hc x,
+      fun hl => ⟨hk x hl, hk x hl⟩⟩
+  · cases hr
+    exact ⟨Iff.rfl, collect_preserves_liveness inv wt hc x, fun hl => ⟨rfl, hk x hl⟩⟩
+
 /-- what a cell reachable before the collection points at is reachable after it with the same
 contents, to any depth: the whole reachable graph is isomorphic (identity map) -/
 theorem collect_preserves_reachable_graph {g g' : Gc} {st : List Slot} {gp : Nat} (inv : Inv g)
